@@ -146,6 +146,12 @@ theorem decompose_sound (n : Nat) (tape : List Nat) (p q : Nat)
     (h : decomposePQ n tape = .ok (p, q)) : p * q = n ∧ 1 < p ∧ p ≤ q :=
   pqLoop_sound pq_constants.2.2.2.2.2 n tape 0 0 p q (Or.inl (by omega)) h
 
+/-- The inner binary-multiplication loop of `DecomposePQ` is Pollard's polynomial step
+`x ↦ (x² + v) mod n` (for `x, v < n`, which the outer loop guarantees). -/
+theorem rho_step_is_square_plus_c (n x v : Nat) (hx : x < n) (hv : v < n) :
+    mulAddLoop n x x v = (v + x * x) % n :=
+  mulAddLoop_eq n x x v hx hv
+
 /-- **pq factorisation returns the two prime factors in ascending order**: for `n = p₁·p₂` with
 `p₁ ≤ p₂` primes (of any size, in particular below 2^63), any successful run returns `(p₁, p₂)`. -/
 theorem decompose_semiprime (p1 p2 : Nat) (hp1 : p1.Prime) (hp2 : p2.Prime) (hle : p1 ≤ p2)
